@@ -108,7 +108,13 @@ RULE = ('kinds iso/npoint/rodgers/tarray/tfile/guillot by quota; layers 2-150 (n
         '(quota of explicit 0 / 0.0 / [] values; 0-2 sections of the same class built before in the same session), judged for '
         'the parameters Section.resolve gives; route "forward model": one TransmissionModel, 1-4 further evaluations between '
         'which atm_max_pressure / atm_min_pressure / planet_radius / profile parameters are set through the model, '
-        'model.temperatureProfile judged on model.pressureProfile after each; the Guillot closed form is also evaluated '
+        'model.temperatureProfile judged on model.pressureProfile after each; route "mixin": every profile class wrapped in the '
+        'built-in scaling mixin (enhance_class(<class>, TempScaler) / profile_type = tempscalar+<type>; quota of arrays / files '
+        'with one temperature per layer and no pressure points; scale factors 1, below and above 1, optionally rewritten through '
+        'the T_scale fitting parameter), .profile evaluated 2-4 times on the SAME object, every evaluation compared with '
+        'Temperature.tempScaler over the model of the wrapped class and judged (finite, positive, inside scale x the control '
+        'range, constant for equal controls), then the wrapped class\'s own profile read on the same object and judged like a '
+        'directly constructed one; the Guillot closed form is also evaluated '
         'independently in Python for every well-conditioned case. distinct non-trivial = distinct (kind, sub-kind, nlayers, '
         'outcome[, route]) with a non-constant profile')
 ASSUMPTIONS = [
@@ -124,6 +130,8 @@ ASSUMPTIONS = [
     'dict (unique keys); ParameterParser turns numbers into floats and comma lists into lists of floats (container syntax '
     'is external); TemperatureArray is not registered with the ClassFactory and skiprows cannot be given in a .par file '
     '(numpy rejects a float): neither is generated',
+    'mixin route: TempScaler.profile = the wrapped class\'s profile times scale_factor, entry by entry (Temperature.tempScaler); '
+    'scale factors > 0; a forward model / sampler evaluates .profile any number of times per parameter set',
     'pressure grid and pressure nodes > 0; control temperatures > 0; Rodgers correlation length != 0; smoothing '
     'window a percentage in [0, 100]; distinct pressure points for TemperatureArray',
     'rounding: model on Float vs numpy doubles compared to 1e-10 relative (Guillot: + 1e-15/min(gamma))',
@@ -632,6 +640,8 @@ def eval_case(ctx, c):
         return eval_factory_case(ctx, c)
     if c.get('route') == 'fm':
         return eval_fm_case(ctx, c)
+    if c.get('route') == 'mixin':
+        return eval_mixin_case(ctx, c)
     tp = judge(ctx, c, dict(c), None)
     if c.get('update') and tp is not None:
         c2 = apply_update(c, tp)
@@ -1170,6 +1180,223 @@ def eval_fm_case(ctx, c):
               given=(P, out, prof, fm.planet, tp))
 
 
+# --------------------------------------------------------------------------------------- route: scaling mixin
+# The built-in temperature mixin TempScaler (`profile_type = tempscalar+<type>` in an input file, enhance_class(<class>,
+# TempScaler, ...) in a script) wraps ANY profile class: its .profile is the wrapped class's profile times `scale_factor`.  A
+# forward model, a sampler's likelihood and the output stage each evaluate .profile, so one object is asked many times per
+# parameter set.  One case = one wrapped object, 2-4 evaluations (the scale factor optionally rewritten through the fitting
+# parameter T_scale after the first), each compared with Temperature.tempScaler over the model of the wrapped class and
+# judged; then the wrapped class's OWN profile is read on the same object and judged like a directly constructed profile.
+MIXIN_KINDS = ['tarray_same', 'tfile_same', 'npoint', 'tarray_same', 'iso', 'guillot', 'tarray', 'rodgers', 'tfile',
+               'tfile_same', 'npoint_bad', 'guillot_bad']
+
+
+def gen_mixin_case(rng, k):
+    kind = MIXIN_KINDS[k % len(MIXIN_KINDS)]
+    if kind in ('tarray_same', 'tfile_same'):
+        # the stored table IS the profile: one temperature per layer, no pressure points
+        c = gen_tarray(rng, as_file=(kind == 'tfile_same'))
+        n = c['pressure']['n']
+        c['tp_array'] = [float(rng.uniform(100, 3000))] * n if rng.random() < 0.15 else \
+            [float(x) for x in rng.uniform(50, 4000, size=n)]
+        c['p_points'] = None
+        c['sub'] = 'plain-same'
+    elif kind == 'iso':
+        n = gen_nlayers(rng)
+        c = dict(kind='iso', pressure=gen_pressure(rng, n), planet=gen_planet(rng), T=float(rng.uniform(10, 5000)))
+    else:
+        c = dict(npoint=gen_npoint, npoint_bad=lambda r: gen_npoint(r, bad=True), guillot=gen_guillot,
+                 guillot_bad=lambda r: gen_guillot(r, bad=True), tarray=gen_tarray, rodgers=gen_rodgers,
+                 tfile=lambda r: gen_tarray(r, as_file=True))[kind](rng)
+    r = rng.random()
+    scale = 1.0 if r < 0.1 else float(rng.uniform(0.3, 0.98)) if r < 0.5 else float(rng.uniform(1.02, 2.5))
+    rescale = None
+    if rng.random() < 0.3:
+        rescale = float(rng.uniform(0.3, 2.5))
+    via = 'factory' if (c['kind'] != 'tarray' and k % 2 == 1) else 'enhance'
+    c.update(route='mixin', scale=scale, rescale=rescale, reads=int(rng.integers(2, 5)), via=via)
+    return c
+
+
+def mixin_kwargs(c, workdir):
+    """the wrapped class's constructor arguments, all given explicitly"""
+    kind = c['kind']
+    if kind == 'iso':
+        return dict(T=c['T'])
+    if kind == 'npoint':
+        return dict(T_surface=c['T_surface'], T_top=c['T_top'], P_surface=c['P_surface'], P_top=c['P_top'],
+                    temperature_points=list(c['temperature_points']), pressure_points=list(c['pressure_points']),
+                    smoothing_window=c['smoothing_window'], limit_slope=c['limit_slope'])
+    if kind == 'rodgers':
+        return dict(temperature_layers=list(c['temperature_layers']), correlation_length=c['correlation_length'],
+                    covariance_matrix=None if c['covariance'] is None else np.asarray(c['covariance'], float))
+    if kind == 'tarray':
+        return dict(tp_array=list(c['tp_array']), p_points=c['p_points'], reverse=c['reverse'])
+    if kind == 'guillot':
+        return dict(c['params'])
+    fn = os.path.join(workdir, 'tp.dat')
+    conv = 1.0 if c.get('press_units', 'Pa') == 'Pa' else 1e-5
+    with open(fn, 'w') as fh:
+        fh.write('# T P\n')
+        for i, t in enumerate(c['tp_array']):
+            if c['p_points'] is None:
+                fh.write('%r\n' % float(t))
+            else:
+                fh.write('%r %r\n' % (float(t), float(c['p_points'][i]) * conv))
+    return dict(filename=fn, skiprows=1, temp_col=0, press_col=None if c['p_points'] is None else 1,
+                press_units=c.get('press_units', 'Pa'))
+
+
+def controls_of(c, P):
+    """the control temperatures whose range bounds the profile of case `c`, or None where the property names none"""
+    kind, sub = c['kind'], c.get('sub', '')
+    if kind == 'iso':
+        return [c['T']]
+    if kind == 'npoint':
+        return npoint_nodes(c, P)[1]
+    if kind == 'rodgers' and sub != 'user-nonsymmetric':
+        return c['temperature_layers']
+    if kind in ('tarray', 'tfile'):
+        return c['tp_array']
+    return None
+
+
+def eval_mixin_case(ctx, c):
+    from taurex.data.planet import Planet
+    from taurex.exceptions import InvalidModelException
+    from taurex.mixin import enhance_class
+    from taurex.mixin.mixins import TempScaler
+    quiet()
+    kind = c['kind']
+    base_klass = factory_class(kind)
+    P = make_pressure(c['pressure'])
+    n = len(P)
+    planet = Planet(planet_mass=c['planet']['mass'], planet_radius=c['planet']['radius'])
+    small = dict(c)
+    plain = {k_: v for k_, v in c.items() if k_ not in ('route', 'scale', 'rescale', 'reads', 'via')}
+    tfile_pp = None
+    if kind == 'tfile' and c['p_points'] is not None:
+        conv = 1.0 if c.get('press_units', 'Pa') == 'Pa' else 1e-5
+        fac = 1.0 if conv == 1.0 else 1e5
+        tfile_pp = [float(float(repr(float(p) * conv)) * fac) for p in c['p_points']]
+        plain['tfile_pp'] = tfile_pp
+    out_m, prof_m = run_model(ctx, plain, P, planet, tfile_pp)
+    workdir = tempfile.mkdtemp(prefix='verif_c12_')
+    init_rejected = False
+    try:
+        try:
+            kw = mixin_kwargs(c, workdir)
+            if c['via'] == 'factory':
+                from taurex.parameter.factory import create_temperature_profile
+                tp = create_temperature_profile(dict(kw, profile_type='tempscalar+' + FACTORY[kind],
+                                                     scale_factor=c['scale']))
+            else:
+                tp = enhance_class(base_klass, TempScaler, scale_factor=c['scale'], **kw)
+        except InvalidModelException:
+            # rejected as an invalid model by the constructor (Guillot checks its values there): what the model must say too
+            ctx.case(key=(kind, c.get('sub', ''), n, 'invalid', 'mixin', 'constructor'), bucket='route:mixin:rejected-by-constructor',
+                     sample=dict(kind=kind, nlayers=n, outcome='invalid'))
+            ctx.check_eq('tempscalar+' + kind + ' outcome (ok / invalid / error) vs model', 'invalid', out_m, small)
+            if kind == 'guillot' and guillot_expect(c['params']) == 'ok':
+                ctx.violation('guillot-valid-raises@mixin', 'admissible Guillot parameters rejected when wrapped in the scaling '
+                              'mixin', small)
+            return
+        except Exception as e_:
+            ctx.violation('mixin-raises:' + kind, 'constructing the scaled profile (%s) raised %r on a valid input'
+                          % (c['via'], e_), small)
+            return
+        try:
+            tp.initialize_profile(planet, n, P)
+        except InvalidModelException:
+            init_rejected = True             # a parameter set rejected when the profile is initialised (Guillot)
+        except Exception as e_:
+            ctx.violation('mixin-raises:' + kind, 'initialising the scaled profile (%s) raised %r on a valid input'
+                          % (c['via'], e_), small)
+            return
+    finally:
+        shutil.rmtree(workdir, ignore_errors=True)
+    if not (isinstance(tp, TempScaler) and isinstance(tp, base_klass)):
+        ctx.violation('mixin-class:' + kind, 'tempscalar+%s did not give a %s wrapped in TempScaler' % (kind, base_klass.__name__),
+                      small, dict(got=type(tp).__name__))
+        return
+    ctrl = controls_of(plain, P)
+    sub = c.get('sub', '')
+    key = 'tempscalar+' + kind + (':' + sub if sub else '')
+    ctx.bucket('mixin:via:' + c['via'])
+    ctx.bucket('mixin:kind:' + kind + ('/' + sub if sub else ''))
+    ctx.bucket('mixin:scale:' + ('1' if c['scale'] == 1.0 else '<1' if c['scale'] < 1 else '>1'))
+    scale = float(c['scale'])
+    for r in range(int(c['reads'])):
+        if r == 1 and c.get('rescale') is not None:
+            tp.fitting_parameters()['T_scale'][3](float(c['rescale']))
+            scale = float(c['rescale'])
+            ctx.bucket('mixin:T_scale-rewritten-between-evaluations')
+        try:
+            if init_rejected:
+                raise InvalidModelException('rejected by initialize_profile')
+            prof = np.array(tp.profile, dtype=float)
+            out = 'ok'
+        except InvalidModelException:
+            out, prof = 'invalid', None
+        except Exception as e_:
+            out, prof = 'error:' + type(e_).__name__, None
+        nonconst = prof is not None and len(prof) > 1 and float(np.nanmax(prof)) > float(np.nanmin(prof))
+        ctx.case(key=(kind, sub, n, out, 'mixin', r) if (nonconst or out != 'ok') else None,
+                 sample=dict(kind=kind, sub=sub, nlayers=n, outcome=out, evaluation=r + 1, scale=scale,
+                             impl=None if prof is None else prof[:3]), bucket='route:mixin:evaluation-%d' % (r + 1))
+        ev = dict(small, evaluation=r + 1)
+        ctx.check_eq('tempscalar+' + kind + ' outcome (ok / invalid / error) vs model', out.split(':')[0], out_m, ev)
+        if out != 'ok' or out_m != 'ok':
+            if out.startswith('error'):
+                ctx.violation(key + '-raises', 'evaluation %d of the scaled profile raised (%s)' % (r + 1, out), ev)
+            break
+        d = ctx.model().call('c12.scale', C.F(scale), C.L(prof_m))
+        rel = 1e-10
+        if kind == 'guillot':
+            q = c['params']
+            rel = 1e-10 + 1e-15 / min(abs(q['kappa_v1'] / q['kappa_irr']), abs(q['kappa_v2'] / q['kappa_irr']))
+        ctx.check_close('tempscalar+%s .profile vs Temperature.tempScaler over the model of the wrapped class' % kind, prof,
+                        d.list(), ev, rel=rel, abs_=0.0 if kind != 'guillot' else 1e-9)
+        if len(prof) != n:
+            ctx.violation(key + '-length', 'scaled profile has %d values for %d layers' % (len(prof), n), ev)
+            break
+        judged_positive = True
+        if kind == 'guillot':
+            q = c['params']
+            judged_positive = (q['kappa_irr'] > 0 and q['kappa_v1'] > 0 and q['kappa_v2'] > 0 and 0 <= q['alpha'] <= 1
+                               and q['T_irr'] >= 0 and q['T_int'] >= 0) and (q['T_irr'] > 0 or q['T_int'] > 0)
+        if kind == 'rodgers' and sub == 'user-nonsymmetric':
+            judged_positive = False
+        if judged_positive and (not np.all(np.isfinite(prof)) or not np.all(prof > 0)):
+            ctx.violation(key + '-nonfinite-or-nonpositive', 'scaled temperature not finite / not positive', ev,
+                          dict(profile=prof[:5]))
+            break
+        if ctrl is not None:
+            lo, hi = min(ctrl) * scale, max(ctrl) * scale
+            slack = 1e-10 * hi
+            if prof.min() < lo - slack or prof.max() > hi + slack:
+                ctx.violation(key + '-out-of-range', 'evaluation %d of the scaled profile leaves the range of its control '
+                              'temperatures times the scale factor' % (r + 1), ev,
+                              dict(scale=scale, lo=lo, hi=hi, min=float(prof.min()), max=float(prof.max())))
+                break
+            if lo == hi and not C.close(prof, [lo] * n, rel=1e-10):
+                ctx.violation(key + '-not-constant', 'equal control temperatures do not give a constant scaled profile', ev)
+                break
+    # the wrapped class's own profile on the same object, after the evaluations above: judged as a direct profile
+    try:
+        if init_rejected:
+            raise InvalidModelException('rejected by initialize_profile')
+        base_prof = np.array(base_klass.profile.fget(tp), dtype=float)
+        out_b = 'ok'
+    except InvalidModelException:
+        out_b, base_prof = 'invalid', None
+    except Exception as e_:
+        out_b, base_prof = 'error:' + type(e_).__name__, None
+    ctx.bucket('mixin:wrapped-profile-reread')
+    judge(ctx, dict(plain, route='mixin'), dict(small, phase='wrapped class profile after the scaled evaluations'), None,
+          given=(P, out_b, base_prof, planet, None))
+
+
 # --------------------------------------------------------------------------------------- externals
 def validate_externals(ctx):
     from taurex.util import movingaverage
@@ -1270,6 +1497,8 @@ def run(ctx):
             eval_case(ctx, gen_factory_case(ctx.rng, k))
         for k in range(ctx.n(320, 5000)):
             eval_case(ctx, gen_fm_case(ctx.rng, k))
+        for k in range(ctx.n(360, 6000)):
+            eval_case(ctx, gen_mixin_case(ctx.rng, k))
     malformed(ctx)
 
 
